@@ -692,22 +692,27 @@ def rule_2_2(ctx: Ctx, repo: Repo, folder: Folder) -> None:
                 c_fn.fail(f"File/Field is chosen by `{kind_}` of the filename parameter, not by its presence: an upload with filename=\"\" comes back as a field", fterm_raw, o)
         # header values
         if isinstance(hdr, T):
-            bad = first_impure((hdr.args, [x for _, x in hdr.kw]), HEADER_VALUE_OPS)
-            if not H.atoms_in(hdr):
+            # what the object holds: what its constructor was given and what the path put into it afterwards
+            # (`headers = Headers()` ... `headers.add(name, value)`)
+            put = [H.freeze(eff[2]) for eff in o.effects if isinstance(eff[0], T) and eff[0].uid is not None and eff[0].uid == hdr.uid
+                   and eff[1] in ("add", "set", "__setitem__", "add_header", "extend", "update", "setlist", "setdefault")]
+            content = (hdr.args, [x for _, x in hdr.kw], put)
+            bad = first_impure(content, HEADER_VALUE_OPS)
+            if not H.atoms_in(content):
                 continue  # path on which the block has no header line
             n_with_lines += 1
-            if "$buffer" not in {a.op for a in H.atoms_in(hdr)}:
+            if "$buffer" not in {a.op for a in H.atoms_in(content)}:
                 c_val.fail(f"headers `{fmt(hdr, 3)}` are not computed from the buffer", hdr, o)
             elif bad is not None:
                 c_val.fail(f"header text goes through `{bad.op.lstrip('.')}`: `{fmt(bad, 4)}`", bad, o)
-            elif any(isinstance(x.args[0], T) and x.args[0].pytype == "str" for x in _find_ops(hdr, ".splitlines")):
-                x = [x for x in _find_ops(hdr, ".splitlines") if isinstance(x.args[0], T) and x.args[0].pytype == "str"][0]
+            elif any(isinstance(x.args[0], T) and x.args[0].pytype == "str" for x in _find_ops(content, ".splitlines")):
+                x = [x for x in _find_ops(content, ".splitlines") if isinstance(x.args[0], T) and x.args[0].pytype == "str"][0]
                 c_val.fail("the header block is split into lines after decoding: str.splitlines also splits at U+2028, U+2029, U+0085, VT, FF, FS-RS, which may occur in names and filenames", x, o)
-            elif any(d.args[1] != "utf-8" for d in _find_ops(hdr, "dec")):
-                d = [d for d in _find_ops(hdr, "dec") if d.args[1] != "utf-8"][0]
+            elif any(d.args[1] != "utf-8" for d in _find_ops(content, "dec")):
+                d = [d for d in _find_ops(content, "dec") if d.args[1] != "utf-8"][0]
                 c_val.fail(f"header lines are decoded as {d.args[1]!r}; the encoder writes names and filenames in utf-8", d, o)
-            elif any(_decode_charset(d) != "utf-8" for d in _find_ops(hdr, ".decode")):
-                d = [d for d in _find_ops(hdr, ".decode") if _decode_charset(d) != "utf-8"][0]
+            elif any(_decode_charset(d) != "utf-8" for d in _find_ops(content, ".decode")):
+                d = [d for d in _find_ops(content, ".decode") if _decode_charset(d) != "utf-8"][0]
                 c_val.fail(f"header lines are decoded as {_decode_charset(d)!r}; the encoder writes names and filenames in utf-8", d, o)
             else:
                 c_val.ok("header lines: split, decoded, name/value separated, stripped")
@@ -767,8 +772,8 @@ def _header_pairs(hdr: t.Any, o: Outcome) -> list[tuple[t.Any, t.Any]] | None:
             continue
         if meth in ("add", "set", "__setitem__", "add_header") and len(args) == 2 and not eff[3]:
             pairs.append((args[0], args[1]))
-        elif meth in ("extend", "update") and len(args) == 1 and _pairs_of_term(freeze(args[0])) is not None:
-            pairs += _pairs_of_term(freeze(args[0]))  # type: ignore[operator]
+        elif meth in ("extend", "update") and len(args) == 1 and _pairs_of_term(H.freeze(args[0])) is not None:
+            pairs += _pairs_of_term(H.freeze(args[0]))  # type: ignore[operator]
         elif meth in ("get", "__getitem__", "__contains__", "getlist", "keys", "items", "values", "__iter__", "__len__", "get_all"):
             continue
         else:
